@@ -72,6 +72,7 @@ type Addr struct {
 	Cell  string     // ALocal: cell id;  AGlobal: heap key
 	Label string
 	Ghost bool
+	Via   *Owner // AField: the field the base object was loaded from, if known (provenance)
 }
 
 const zeroTimeNs = "(- 62135596800000000000)"
